@@ -24,12 +24,17 @@ enum Code
   F_ASSIGN_ARR,
   F_COPY_CTOR,
   F_COPY_ASSIGN,
+  F_SELF_ASSIGN,     // *P = *P
+  F_ASSIGN_OWNVEC,   // std::vector<T> v(P->begin()+1, P->end()); *P = v   (a vector built over its own data)
+  F_PTR_OWN,         // P = make_shared<FixedArray>(P->data()+1, size-1)   (built from a range of the array it replaces)
+  F_PTR_OTHER,       // P = make_shared<FixedArray>(other->data()+1, othersize-1)
   F_WRITE,
   F_DROP,
   W_DEF,
   W_MAKE,
   W_COPY_CTOR,
   W_COPY_ASSIGN,
+  W_ASSIGN_SUB,      // *W = FixedArrayView(P, off+1, n-1) where W already views P
   W_WRITE,
   W_DESTROY
 };
@@ -57,7 +62,6 @@ static std::vector<Op> make_ops()
   const char *var[3] = {"(data,size)", "(data+1,size-1)", "(data,0)"};
   const char *sub[3] = {"0,size", "1,size-1", "size,0"};
   add(F_DEF, 0, 0, 0, "P0 = make_shared<FixedArray>()", "FixedArray()");
-  add(F_SIZE, 0, 0, 0, "P0 = make_shared<FixedArray>(0)", "FixedArray(size_t)");
   add(F_SIZE, 0, 2, 0, "P0 = make_shared<FixedArray>(2)", "FixedArray(size_t)");
   add(F_PTR, 0, 0, 0, std::string("P0 = make_shared<FixedArray> S0") + var[0], "FixedArray(T*,size_t)");
   add(F_PTR, 0, 0, 1, std::string("P0 = make_shared<FixedArray> S0") + var[1], "FixedArray(T*,size_t)");
@@ -71,6 +75,10 @@ static std::vector<Op> make_ops()
   add(F_ASSIGN_ARR, 0, 0, 0, "*P0 = arr", "operator=(array&)");
   add(F_COPY_CTOR, 0, 1, 0, "P0 = make_shared<FixedArray>(*P1)", "copy constructor");
   add(F_COPY_ASSIGN, 0, 1, 0, "*P0 = *P1", "copy assignment");
+  add(F_SELF_ASSIGN, 0, 0, 0, "*P0 = *P0", "copy assignment");
+  add(F_ASSIGN_OWNVEC, 0, 0, 0, "vector v(P0->begin()+1, P0->end()); *P0 = v", "operator=(vector&) with a vector built over its own data");
+  add(F_PTR_OWN, 0, 0, 0, "P0 = make_shared<FixedArray>(P0->data()+1, size-1)", "FixedArray(T*,size_t) with a range inside the array it replaces");
+  add(F_PTR_OTHER, 0, 1, 0, "P0 = make_shared<FixedArray>(P1->data()+1, P1 size-1)", "FixedArray(T*,size_t) with a range inside another FixedArray");
   add(F_WRITE, 0, 0, 0, "(*P0)[size-1] = fresh", "element write");
   add(F_DROP, 0, 0, 0, "P0.reset()", "handle dropped");
   add(F_VEC, 1, 1, 0, "P1 = make_shared<FixedArray>(S1)", "FixedArray(vector&)");
@@ -82,9 +90,10 @@ static std::vector<Op> make_ops()
   add(F_DROP, 1, 0, 0, "P1.reset()", "handle dropped");
   add(W_DEF, 0, 0, 0, "W0 = new FixedArrayView()", "FixedArrayView()");
   for (int p = 0; p < 2; p++)
-    for (int b = 0; b < 3; b++)
+    for (int b = 0; b < (p ? 2 : 3); b++)
       add(W_MAKE, 0, p, b, "W0 = new FixedArrayView(P" + std::to_string(p) + "," + sub[b] + ")", "FixedArrayView(shared_ptr&,offset,size)");
   add(W_COPY_ASSIGN, 0, 1, 0, "*W0 = *W1", "view copy assignment");
+  add(W_ASSIGN_SUB, 0, 0, 0, "*W0 = FixedArrayView(its array, off+1, n-1)", "view re-assigned onto a sub-range of the array it views");
   add(W_WRITE, 0, 0, 0, "(*W0)[0] = fresh", "write through view");
   add(W_DESTROY, 0, 0, 0, "delete W0", "view destructor");
   add(W_MAKE, 1, 0, 0, std::string("W1 = new FixedArrayView(P0,") + sub[0] + ")", "FixedArrayView(shared_ptr&,offset,size)");
@@ -232,7 +241,7 @@ struct World
     touchedP[0] = touchedP[1] = touchedW[0] = touchedW[1] = false;
     if (op.code >= F_DEF && op.code <= F_DROP) {
       touchedP[s] = true;
-      if (op.code == F_COPY_CTOR || op.code == F_COPY_ASSIGN)
+      if (op.code == F_COPY_CTOR || op.code == F_COPY_ASSIGN || op.code == F_PTR_OTHER)
         touchedP[op.a] = true;
     } else if (op.code >= W_DEF) {
       touchedW[s] = true;
@@ -321,6 +330,30 @@ struct World
       MP[s]->default_like = false;
       return true;
     }
+    case F_SELF_ASSIGN:
+      if (!MP[s])
+        return false;
+      *P[s] = *P[s];
+      return true;
+    case F_ASSIGN_OWNVEC: {
+      if (!MP[s] || MP[s]->n == 0)
+        return false;
+      std::vector<T> v(P[s]->begin() + 1, P[s]->end());
+      std::vector<LL> c(MP[s]->buf->c.begin() + 1, MP[s]->buf->c.begin() + MP[s]->n);
+      *P[s] = v;
+      reassign(*MP[s], c);
+      return true;
+    }
+    case F_PTR_OWN:
+    case F_PTR_OTHER: {
+      const int o = op.code == F_PTR_OWN ? s : op.a;
+      if (!MP[o] || MP[o]->n == 0)
+        return false;
+      std::vector<LL> c(MP[o]->buf->c.begin() + 1, MP[o]->buf->c.begin() + MP[o]->n);
+      P[s] = std::make_shared<FixedArray<T>>(P[o]->data() + 1, c.size());  // built before the old *P[s] is released
+      MP[s] = mobj(c, RF_BUILT);
+      return true;
+    }
     case F_WRITE: {
       if (!MP[s] || MP[s]->n == 0 || shared_between_arrays(MP[s]->buf))
         return false;
@@ -385,6 +418,20 @@ struct World
       *W[s] = *W[op.a];
       MW[s] = MW[op.a];
       return true;
+    case W_ASSIGN_SUB: {
+      // only while the array the view was made on is still reachable through a handle and was not
+      // re-assigned (otherwise the offset would refer to a different buffer)
+      MFView &m = MW[s];
+      if (!m.live || m.default_like || m.n == 0 || m.obj->buf != m.buf)
+        return false;
+      int pi = MP[0] == m.obj ? 0 : MP[1] == m.obj ? 1 : -1;
+      if (pi < 0)
+        return false;
+      *W[s] = FixedArrayView<T>(P[pi], m.off + 1, m.n - 1);
+      m.off += 1;
+      m.n -= 1;
+      return true;
+    }
     case W_WRITE: {
       if (!MW[s].live || MW[s].n == 0 || shared_between_arrays(MW[s].buf))
         return false;
